@@ -68,6 +68,18 @@ PROPS["C11"] = {
                     "stream longer than the threshold; junk that completes into well-formed XML across the boundary is compared with the model only"],
 }
 
+PROPS["C10"] = {
+    "suites": [("comp_num", "gen_render"), ("comp_num", "gen_parse")],
+    "rule": "render: the resolution grid of %.3m on [-360,360] (thorough: the complete grids of %.3m %.5m %.6m, dense random sub-grids of %.8m %.9m), values half a unit around every "
+            "field carry, (-1,0), +-1e9, printf formats %[flags][width][.prec]{d,f} (13 common + sampled combinations) x interesting and random values; parse: every string over "
+            "'-+0159.:; ' up to length 4 (thorough 6), random strings of the 8-alternative grammar with all separators, signs, padding, and a list of hostile texts (non-ASCII digits, "
+            "exponents, 400-digit numbers); distinct by (format, exact value) / text",
+    "trusted_base": ["floats travel as exact integer ratios (float.as_integer_ratio)"],
+    "assumptions": ["binary64 arithmetic of CPython is IEEE-754 round-to-nearest-even (Arith.fl); |x| <= 1e9 for the resolution claim"],
+}
+
+PROPS["DEVTEST"] = {"suites": [("comp_dev", "gen_cases")], "rule": "dev model bring-up"}
+
 MANIFEST_TEXT = {
     "C20": {
         "text": "Kernel-checked theorem C20 (lean/Indi/Properties/C20.lean): for every class table passing the decidable well-formedness check, and every two constructed "
